@@ -1,6 +1,7 @@
 package simrt
 
 import (
+	"errors"
 	"io"
 	"crypto/sha1"
 	"encoding/hex"
@@ -66,6 +67,8 @@ type OpInst struct {
 	Say       int      // -say N: print N bytes without a newline on standard output
 	Head      int      // -head N: read only the first N bytes of each input, then close it
 	TouchIn   bool     // -touchin: the command re-writes its first input in place (same bytes, new mtime), like sort -o / an index update
+	BgLate    bool     // -bglate: the first output is created only AFTER the command returned (by a child that outlives it)
+	BgActive  bool     // a background child of this command is still working
 	BgTail    bool     // -bg: the last part of the first output is written by a child that outlives the command
 	Notes     []string // -note words: recorded, no influence on the result
 	StartStep int
@@ -103,6 +106,7 @@ type Shell struct {
 	Insts    []*OpInst
 	Trace    []TraceEvent
 	Plan     func(o *OpInst)
+	nextDelay int64
 	// Scripts: every `bash -c` script the program started, in order (the
 	// library's own housekeeping - mkfifo, rm of a FIFO - included)
 	Scripts []string
@@ -120,7 +124,7 @@ func newShell(s *Sim) *Shell {
 func (sh *Shell) Running() []*OpInst {
 	var r []*OpInst
 	for _, o := range sh.Insts {
-		if o.Running {
+		if o.Running || o.BgActive {
 			r = append(r, o)
 		}
 	}
@@ -238,6 +242,8 @@ type shellRun struct {
 	errexit, pipefail bool
 	launcher          []string // launcher words stripped from the current simple command
 	exited            bool     // `exit` was executed
+	waitDelayNS       int64
+	delayed           bool
 	children          WaitGroup // background children that inherited the script's stdout/stderr
 }
 
@@ -250,6 +256,30 @@ func (sh *Shell) Exec(script string) ([]byte, error) { return sh.ExecMode(script
 // it then only returns when every child holding the write end has exited. A
 // caller that hands the script a plain file (or nothing) as stdout/stderr
 // returns as soon as the shell itself exits.
+// ErrWaitDelay: the shell has exited but children that hold its output pipe
+// were still running when Cmd.WaitDelay expired (os/exec.ErrWaitDelay).
+var ErrWaitDelay = errors.New("exec: WaitDelay expired before I/O complete")
+
+// ExecDelay is ExecMode(script, true) with os/exec's WaitDelay: children that
+// inherited the output pipe are waited for at most delayNS after the shell exited.
+func (sh *Shell) ExecDelay(script string, delayNS int64) ([]byte, error) {
+	sh.nextDelay = delayNS
+	return sh.ExecMode(script, true)
+}
+
+func (r *shellRun) waitKids() {
+	if r.waitDelayNS <= 0 {
+		r.children.Wait()
+		return
+	}
+	if r.children.Pending() > 0 {
+		r.sh.s.SleepNS(r.waitDelayNS)
+		if r.children.Pending() > 0 {
+			r.delayed = true
+		}
+	}
+}
+
 func (sh *Shell) ExecMode(script string, waitChildren bool) ([]byte, error) {
 	s := sh.s
 	s.Pre("exec", 0, script)
@@ -258,7 +288,8 @@ func (sh *Shell) ExecMode(script string, waitChildren bool) ([]byte, error) {
 	if err != nil {
 		s.HarnessFail(err.Error())
 	}
-	r := &shellRun{sh: sh, cwd: s.FS.Cwd, script: script}
+	r := &shellRun{sh: sh, cwd: s.FS.Cwd, script: script, waitDelayNS: sh.nextDelay}
+	sh.nextDelay = 0
 	status := 0
 	signal := ""
 	i := 0
@@ -285,13 +316,13 @@ func (sh *Shell) ExecMode(script string, waitChildren bool) ([]byte, error) {
 			status, signal = r.simple(words, redir, redirTo)
 			if signal != "" {
 				if waitChildren {
-					r.children.Wait()
+					r.waitKids()
 				}
 				return r.out, &ExitError{Code: -1, Signal: signal}
 			}
 			if r.exited {
 				if waitChildren {
-					r.children.Wait()
+					r.waitKids()
 				}
 				if status != 0 {
 					return r.out, &ExitError{Code: status}
@@ -312,7 +343,7 @@ func (sh *Shell) ExecMode(script string, waitChildren bool) ([]byte, error) {
 			// || list except the command following the final && or ||")
 			if r.errexit && lastStage && status != 0 && (i >= len(toks) || toks[i].s == ";") {
 				if waitChildren {
-					r.children.Wait()
+					r.waitKids()
 				}
 				return r.out, &ExitError{Code: status}
 			}
@@ -338,10 +369,13 @@ func (sh *Shell) ExecMode(script string, waitChildren bool) ([]byte, error) {
 		}
 	}
 	if waitChildren {
-		r.children.Wait()
+		r.waitKids()
 	}
 	if status != 0 {
 		return r.out, &ExitError{Code: status}
+	}
+	if r.delayed {
+		return r.out, ErrWaitDelay
 	}
 	return r.out, nil
 }
@@ -812,6 +846,8 @@ func (sh *Shell) parseOp(r *shellRun, w []string) *OpInst {
 			o.BGroup = need()
 		case "-bg":
 			o.BgTail = true
+		case "-bglate":
+			o.BgLate = true
 		case "-touchin":
 			o.TouchIn = true
 		case "-head":
@@ -1030,6 +1066,25 @@ func (sh *Shell) runOp(r *shellRun, w []string) (int, string) {
 			continue
 		}
 		csize := (len(data) + chunks - 1) / chunks
+		if o.BgLate && idx == 0 && o.Fail == FailNone {
+			// the tool returns at once; a helper it left behind writes the first
+			// output later (the file just created above is removed again: it does
+			// not exist when the command returns)
+			fs.Remove(r.cwd, p)
+			all, cwd, pp := data, r.cwd, p
+			// (the helper is detached: it does not hold the command's output pipe, so
+			// nobody waits for it and it is not counted as part of the executing task)
+			delay := 1000000 + int64(s.Tape.Choose(StDur, 6, 0))*int64(o.DurNS+1000)
+			Go("op:late-writer", func() {
+				s.SleepNS(delay)
+				s.Pre("op-bg-create", 0, pp)
+				if nn, ab, err := fs.Create(cwd, pp); err == nil {
+					fs.WriteAt(nn, ab, 0, all)
+				}
+			})
+			o.Written[p] = true
+			continue
+		}
 		if o.BgTail && idx == 0 && len(data) >= 2 && o.Fail == FailNone {
 			// `producer | tee >(filter > OUT)` style: the command returns while a
 			// child that inherited its stdout/stderr still writes the rest of OUT
@@ -1041,8 +1096,10 @@ func (sh *Shell) runOp(r *shellRun, w []string) (int, string) {
 			rest, node, ab := data[half:], n, abs
 			delay := 1000 + int64(s.Tape.Choose(StDur, 6, 0))*int64(o.DurNS+1000)
 			r.children.Add(1)
+			o.BgActive = true
 			Go("op:background-writer", func() {
 				defer r.children.Done()
+				defer func() { o.BgActive = false }()
 				s.SleepNS(delay)
 				s.Pre("op-bg-write", 0, ab)
 				fs.WriteAt(node, ab, half, rest)
